@@ -664,6 +664,10 @@ def dict_find(it, d: VDict, q: V):
 def contains(it, container: V, item: V):
     if isinstance(container, VLib) and container.kind == "dict_keys":
         container = container.f["dict"]
+    if isinstance(container, VLib) and container.kind == "sys.modules":
+        # ambient process state: a module may or may not have been registered under this name by an EARLIER request in the same process
+        it.trace.append(("sys.modules-lookup", item))
+        return z3.Bool(it.fresh_name("already_in_sys_modules"))
     if isinstance(container, VLib) and container.kind in ("RelMap", "KeySet", "RelMapKeys"):
         from . import relmap
         return relmap.contains(it, container, item)
@@ -1138,6 +1142,9 @@ def path_join(it, a, b):
     sa = a.f["s"] if isinstance(a, VLib) else a
     if isinstance(b, VLib) and b.kind == "Path":
         b = b.f["s"]
+    if isinstance(b, VOpaque):
+        from . import plain
+        b = plain.resolve(it, b)  # a decoded (JSON / CBOR) value: one kind per path
     if not isinstance(b, VStr):
         it.raise_(TypeError, "unsupported operand type(s) for /")
     note(it, "pathlib./ modelled as a + '/' + b (relative second component)")
